@@ -97,6 +97,17 @@ pub fn history(rng: &mut gen::R, c: &Case, tb: &Tablebases) -> Vec<Cmd> {
     }
     let _ = tb;
     s.push(Cmd::NewGame);
+    // the new game may begin with commands that do not search: a book answer, isready, a stray stop
+    match rng.gen_range(0..6) {
+        0 | 1 => {
+            let moves = if rng.gen_bool(0.5) { vec![] } else { vec!["e2e4".to_string()] };
+            s.push(Cmd::Position { fen: None, moves });
+            s.push(Cmd::Go { spec: ["", "depth 2", "movetime 100"][rng.gen_range(0..3)].into(), wait: true });
+        }
+        2 => s.push(Cmd::IsReady),
+        3 => s.push(Cmd::Stop),
+        _ => {}
+    }
     s.push(Cmd::Position { fen: Some(c.m.fen()), moves: vec![] });
     s.push(Cmd::Go { spec: "depth 4".into(), wait: true });
     s.push(Cmd::Quit);
